@@ -420,7 +420,12 @@ func Equal(a, b Value) *term.T {
 			panic(fmt.Sprintf("Equal: scalar vs %T", b))
 		}
 		return term.MkEq(x, y)
+	case OpaqueFloat:
+		panic(pathEnd{"unsupported", "equality on an opaque float"})
 	case Float:
+		if _, isO := b.(OpaqueFloat); isO {
+			panic(pathEnd{"unsupported", "equality on an opaque float"})
+		}
 		return term.Bool(x.V == b.(Float).V)
 	case Complex:
 		return term.Bool(x.V == b.(Complex).V)
